@@ -77,7 +77,8 @@ def _plain(idn, style, rng):
     if style == "unicode":
         return tok + "-é漢\U0001d4b3ß", tok
     if style == "escapes":
-        return 'a"b\\c/d\x01\t<>& ' + tok + '\\"', tok
+        # (also: a literal backslash followed by what looks like a \\uXXXX escape of '<', '>' and '&')
+        return 'a"b\\c/d\x01\t<>&  \\u003cb\\u003e\\u0026 ' + tok + '\\"', tok
     if style == "control":
         return "\x01\x07\x0b\x7f\U000e0001" + tok + "\x1f", tok
     if style == "shared_prefix":      # near-duplicates: a long common prefix, the difference at the very end
